@@ -8,14 +8,18 @@
    harness/c02 (no model needed) and needs the language semantics of another slice to be stated in Coq.
 
    The model is of the CURRENT code ([current]: three-index reslice of fix 8b3b8e6, two-parameter deleteEmpty
-   of fix 96ad5a7).  The full-strength refinement statement is still FALSE for it (known findings D5, D9 in
+   of fix 96ad5a7, in-place growth that clears the cells it exposes of fix 73ac0b6).  Since that last fix the
+   ownership invariant [orep] no longer says "the cells beyond the length of an owned array are nil": they are
+   arbitrary, every theorem below holds for this WEAKER invariant, and a second positive theorem
+   ([C02_abs_update_own], [C02_abs_update_prefix]) covers a new value that is a part of the value it replaces
+   (an update body returning its input, a child, or a prefix slice .[:k]: the shape of the repaired D11).  The full-strength refinement statement is still FALSE for it (known findings D5, D9 in
    docs/C02.md).  It is kept visible as [C02_heap_full]; dropping either of the two hypotheses "the new value
    is frozen" / "ownership invariant [orep]" is refuted by witnesses computed with the model, and the positive
    theorem is proved under those hypotheses for every path in which no slice is directly followed by
    another slice ([ok_path]); that last shape is modelled and corresponded but neither proved nor refuted
    ([C02_heap_inner_slices_open]).  D4 (repaired) is kept as a regression example. *)
 From Coq Require Import List ZArith NArith.
-From Verif Require Import c02.Path c02.PathProofs c02.HeapPath c02.HeapInv c02.HeapProofs c02.HeapSlice c02.HeapInner c02.HeapAbs c02.HeapWitness c02.HeapSweep c02.HeapDelpaths c02.HeapReduce.
+From Verif Require Import c02.Path c02.PathProofs c02.HeapPath c02.HeapInv c02.HeapProofs c02.HeapSlice c02.HeapInner c02.HeapAbs c02.HeapOwn c02.HeapWitness c02.HeapSweep c02.HeapDelpaths c02.HeapReduce.
 Import ListNotations.
 
 (* The statement one would like (DESIGN section 5, C02 T.1): on ANY acyclic heap, for ANY path and ANY
@@ -55,6 +59,84 @@ Theorem C02_abs_update : forall p h ps v j fp n jn,
   end.
 Proof. exact abs_update. Qed.
 Print Assumptions C02_abs_update.
+
+(* ---- second positive theorem: the new value OWNS allocated containers, all of them taken from the value it
+   replaces ----
+   [own_at h ps v p fn]: following p from v as getpath does, the value found there has a footprint that contains
+   fn (fn = the allocated containers of the new value n).  Covers what `p |= f` stores when f returns its input
+   (`.`), a child of it (`.[0]`, `.a`, `first(.[])`) or a PREFIX SLICE of it (`.[:k]`, `.[0:k]`: same pointer,
+   smaller length, the hidden cells keep their content).  Paths of keys and indices ([no_slice]).
+   Conclusion as for C02_abs_update: refinement of setpath, no cycle, frame, invariant (so the next path of the
+   reduction may write the stored container in place: growth clears what it exposes). *)
+Theorem C02_abs_update_own : forall p h ps v j fp n jn fn,
+  alloc_wf ps -> orep h ps j v fp -> NoDup fp ->
+  orep h ps jn n fn -> NoDup fn -> own_at h ps v p fn -> no_slice p ->
+  match setpath j p jn with
+  | None => update current h (Some ps) v p n = None
+  | Some j' =>
+      exists h' ps' u fp',
+        update current h (Some ps) v p n = Some (h', Some ps', u) /\
+        (forall fuel, depth j' < fuel -> abs fuel h' u = Some j') /\
+        (forall jx x, frep h ps jx x -> frep h' ps' jx x /\ forall fuel, depth jx < fuel -> abs fuel h' x = Some jx) /\
+        orep h' ps' j' u fp' /\ NoDup fp' /\ alloc_wf ps'
+  end.
+Proof. exact abs_update_own. Qed.
+Print Assumptions C02_abs_update_own.
+
+(* `p |= .[:k]` as one step: x is the alias getpath hands to the body, the body returns v[:k] of it *)
+Theorem C02_abs_update_prefix : forall p h ps v j fp x js fx k,
+  alloc_wf ps -> orep h ps j v fp -> NoDup fp -> no_slice p ->
+  h_getpath h v p = Some x -> orep h ps (JArr js) x fx -> NoDup fx -> k <= hlen x ->
+  match setpath j p (JArr (firstn k js)) with
+  | None => update current h (Some ps) v p (reslice false x 0 k) = None
+  | Some j' =>
+      exists h' ps' u fp',
+        update current h (Some ps) v p (reslice false x 0 k) = Some (h', Some ps', u) /\
+        (forall fuel, depth j' < fuel -> abs fuel h' u = Some j') /\
+        (forall jx x, frep h ps jx x -> frep h' ps' jx x /\ forall fuel, depth jx < fuel -> abs fuel h' x = Some jx) /\
+        orep h' ps' j' u fp' /\ NoDup fp' /\ alloc_wf ps'
+  end.
+Proof. exact abs_update_prefix. Qed.
+Print Assumptions C02_abs_update_prefix.
+
+(* a Go value has one representation: footprints are a function of (heap, allocator, value) *)
+Theorem C02_footprint_unique : forall j h ps v f1, orep h ps j v f1 -> forall j2 f2, orep h ps j2 v f2 -> f1 = f2.
+Proof. exact orep_fp_fun. Qed.
+Print Assumptions C02_footprint_unique.
+
+(* non-vacuity on the state of D11 after its first path: the hypotheses of C02_abs_update_prefix hold, the update
+   leaves a prefix header over STALE cells, that state satisfies the invariant, the next write grows in place *)
+Example C02_own_nonvacuous :
+  let h := [OArr [HNum 10; HNum 2; HNum 3]; OMap [(ka, HArr 0 0 3 3)]] in
+  let h' := [OArr [HNum 10; HNum 2; HNum 3]; OMap [(ka, HArr 0 0 1 3)]] in
+  let ps := [PArr 0 0; PMap 1] in
+  alloc_wf ps /\ orep h ps (JObj [(ka, JArr [JNum 10; JNum 2; JNum 3])]) (HMap 1) [1; 0] /\ NoDup [1; 0] /\
+  no_slice [PK ka] /\ h_getpath h (HMap 1) [PK ka] = Some (HArr 0 0 3 3) /\
+  orep h ps (JArr [JNum 10; JNum 2; JNum 3]) (HArr 0 0 3 3) [0] /\ NoDup [0] /\ 1 <= hlen (HArr 0 0 3 3) /\
+  update current h (Some ps) (HMap 1) [PK ka] (reslice false (HArr 0 0 3 3) 0 1) = Some (h', Some ps, HMap 1) /\
+  orep h' ps (JObj [(ka, JArr [JNum 10])]) (HMap 1) [1; 0] /\
+  update current h' (Some ps) (HMap 1) [PK ka; PI 2%Z] (HNum 10) =
+    Some ([OArr [HNum 10; HNull; HNum 10]; OMap [(ka, HArr 0 0 3 3)]], Some ps, HMap 1) /\
+  setpath (JObj [(ka, JArr [JNum 10])]) [PK ka; PI 2%Z] (JNum 10) = Some (JObj [(ka, JArr [JNum 10; JNull; JNum 10])]).
+Proof. exact own_nonvacuous. Qed.
+
+(* OPEN (stated, not proved): the compiled `p |= f` loop for a body that returns a PART of its input.
+   C02_modify_sound needs [body_ok] (output frozen).  The relaxed side condition below lets the output own
+   containers taken from the footprint of the body's input.  Missing for a proof: (1) C02_abs_update_own is
+   proved for paths of keys and indices; through a slice path getpath hands the body a WINDOW of an owned array
+   (offset > 0 or smaller capacity), whose prefix slices are not owned headers; (2) the loop invariant [inv]
+   of HeapReduce (hclean, framed) is carried for frozen outputs only; (3) the final delpaths.  Evidence: oracle
+   block `modify-grow` (1 716 cases per run: (A[i], A, A[j]) and variants x 11 slice-returning bodies) and the
+   random cases with the 7 slice-returning bodies: 0 deviations on the current tree. *)
+Definition C02_modify_part_open : Prop := forall fv fh, body_part_ok fv fh -> forall qs h ps v j fp,
+  inv h ps j v fp -> Forall no_slice qs ->
+  match modify_v fv j qs with
+  | None => forall fuel, modify fh fuel h (Some ps) v qs = None
+  | Some j' => exists fuel0, forall fuel, fuel0 <= fuel ->
+      exists h' ps' u fp',
+        modify fh fuel h (Some ps) v qs = Some (h', Some ps', u) /\
+        inv h' ps' j' u fp' /\ framed h ps h' ps' /\ denotes h' u j'
+  end.
 
 (* the invariant implies that the executable abstraction reads the denoted value: no cycle *)
 Theorem C02_invariant_acyclic : forall j h ps v fp, orep h ps j v fp -> forall fuel, depth j < fuel -> abs fuel h v = Some j.
@@ -149,6 +231,30 @@ Example C02_D4_regression :
   run current = Some (JArr [JNum 1; JNum 7; JNum 2; JNum 7]) /\
   setpath (JArr [JNum 1; JNum 2; JNum 7]) p4 (JNum 7%Z) = Some (JArr [JNum 1; JNum 7; JNum 2; JNum 7]).
 Proof. exact D4_regression. Qed.
+
+(* D11 (repaired by 73ac0b6): {"a":[1,2,3]} | (.a[0],.a,.a[2]) |= (if type=="array" then .[0:1] else 10 end), the
+   whole compiled reduction on the model (getpath alias, body, update, one allocator): the update body returns a
+   prefix slice of an array the reduction owns, the third path grows it in place.  Code before the fix
+   ([old_growth]: exposed cells keep their stale content) {"a":[10,2,10]}; current code (clear(v[l:i]))
+   {"a":[10,null,10]} = the fold of getpath/setpath; the input is left alone *)
+Example C02_D11_regression :
+  let out cfg := match run11 cfg with Some (h, v) => abs 8 h v | None => None end in
+  out old_growth = Some (JObj [(key_a, JArr [JNum 10; JNum 2; JNum 10])]) /\
+  out current = Some (JObj [(key_a, JArr [JNum 10; JNull; JNum 10])]) /\
+  ref11 = Some (JObj [(key_a, JArr [JNum 10; JNull; JNum 10])]) /\
+  (forall cfg, match run11 cfg with Some (h, _) => abs 8 h (HMap 1) | None => None end =
+               Some (JObj [(key_a, JArr [JNum 1; JNum 2; JNum 3])])).
+Proof. exact D11_regression. Qed.
+
+(* the native step alone, on the state the second path leaves (allocated array, prefix header, stale cells) *)
+Example C02_D11_step :
+  let h := [OArr [HNum 10; HNum 2; HNum 3]] in
+  let run cfg := match update cfg h (Some [PArr 0 0]) (HArr 0 0 1 3) [PI 2%Z] (HNum 10) with
+                 | Some (h', _, u) => Some (h', u) | None => None end in
+  run old_growth = Some ([OArr [HNum 10; HNum 2; HNum 10]], HArr 0 0 3 3) /\
+  run current = Some ([OArr [HNum 10; HNull; HNum 10]], HArr 0 0 3 3) /\
+  setpath (JArr [JNum 10]) [PI 2%Z] (JNum 10) = Some (JArr [JNum 10; JNull; JNum 10]).
+Proof. exact D11_step. Qed.
 
 (* D5 on the current code with its slice path: the second step of [0,1] | (.[1:],.[1:]) |= [.] returns a
    value that is cyclic for every fuel *)
